@@ -9,7 +9,7 @@
 (***************************************************************************)
 EXTENDS Integers, Sequences, FiniteSets, TLC, Json
 
-CONSTANTS Suite,      \* "ae" | "vote" | "vote2"
+CONSTANTS Suite,      \* "ae" | "vote" | "vote2" | "vote3" | "restart"
           MaxLen,     \* follower log length (index 1 is the bootstrap configuration)
           MaxT        \* terms 1..MaxT
 
@@ -55,15 +55,19 @@ VoteImgs == UNION {UNION {
                   v \in {<<0, "">>} \cup {<<vt, c>> : vt \in {ct - 1, ct} \cap (1..MaxT), c \in Cand \cup {"n1"}} }
               : ct \in LastT(tv)..MaxT }
               : tv \in UNION {Mono(n, 1) : n \in 0..(MaxLen - 1)} }
-VoteSteps(img, faults) ==
-  LET lastI == Len(img.log)
-      lastT == img.log[lastI][2]
-  IN { [k |-> "rv", src |-> c, crashat |-> f[1], failat |-> f[2],
+\* the last entry of an image: of its log, or of its snapshot when that is ahead of the log
+LastOf(img) ==
+  LET n == Len(img.log)
+      si == IF img.snap = <<>> THEN 0 ELSE img.snap[1]
+  IN IF n > 0 /\ img.log[n][1] >= si THEN <<img.log[n][1], img.log[n][2]>> ELSE <<img.snap[1], img.snap[2]>>
+VoteStepsAt(img, lastI, lastT, faults) ==
+  { [k |-> "rv", src |-> c, crashat |-> f[1], failat |-> f[2],
         req |-> [term |-> t, lli |-> p[1], llt |-> p[2], xfer |-> x]] :
          c \in Cand, t \in {img.ct - 1, img.ct, img.ct + 1} \cap (1..(MaxT + 1)), p \in Positions(lastI, lastT), x \in BOOLEAN, f \in faults }
      \cup { [k |-> "pv", src |-> c, crashat |-> 0, failat |-> 0, req |-> [term |-> t, lli |-> p[1], llt |-> p[2]]] :
          c \in Cand, t \in {img.ct, img.ct + 1}, p \in Positions(lastI, lastT) }
      \cup { [k |-> "tn", src |-> c, crashat |-> f[1], failat |-> f[2], req |-> [from |-> c]] : c \in {"n2"}, f \in faults }
+VoteSteps(img, faults) == VoteStepsAt(img, LastOf(img)[1], LastOf(img)[2], faults)
 NoFault == {<<0, 0>>}
 Faults == {<<0, 0>>, <<1, 0>>, <<2, 0>>, <<3, 0>>, <<0, 1>>, <<0, 2>>}
 Restart == [k |-> "restart", src |-> "", crashat |-> 0, failat |-> 0, req |-> [x |-> 0]]
@@ -85,13 +89,19 @@ Cases ==
 
 \* C10: start a real node from every image (with / without snapshot, every staged commit index, the
 \* three store flavours), then crash and restart it once more
+\* C06 with a snapshot ahead of the log (a follower just caught up by InstallSnapshot, a restart in that state,
+\* RecoverCluster): the voter's last entry is the snapshot's
+VoteSnapCases ==
+  UNION {{[flavor |-> "", img |-> img, steps |-> <<s>>] : s \in {x \in VoteSteps(img, NoFault) : x.k \in {"rv", "pv"}}} :
+            img \in {i \in Imgs : i.snap # <<>> /\ (Len(i.log) = 0 \/ i.log[Len(i.log)][1] <= i.snap[1])}}
+
 RestartCases ==
   UNION {UNION {
      { [flavor |-> fl, img |-> [img EXCEPT !.dcommit = dc, !.vt = v[1], !.vc = v[2]], steps |-> <<Restart>>] :
          dc \in (IF fl = "ct" THEN 0..(Len(img.log) + 1) ELSE {0}), v \in {<<0, "">>, <<img.ct, "n2">>, <<img.ct - 1, "n1">>} }
      : fl \in {"", "mono", "ct"} } : img \in Imgs }
 
-AllCases == IF Suite = "restart" THEN RestartCases ELSE Cases
+AllCases == IF Suite = "restart" THEN RestartCases ELSE IF Suite = "vote3" THEN VoteSnapCases ELSE Cases
 
 VARIABLE cs
 Init == cs \in AllCases /\ PrintT("CASE|" \o ToJson(cs))
